@@ -124,3 +124,16 @@ def random_subset_with_ends(rng, n, p=None):
 
 def nextafter(x, d):
     return math.nextafter(x, d)
+
+
+def wavy_curve(rng, n):
+    """decreasing power law plus a sinusoid (non-convex: bumps, several lower-hull gaps); strictly increasing x, y >= 0"""
+    a = rng.choice([0.5, 0.7, 1.0])
+    amp = rng.choice([1.0, 2.0, 4.0, 8.0])
+    w = rng.choice([0.7, 1.3, 2.1])
+    xs = [float(i + 1) for i in range(n)]
+    ys = [1000.0 / (x ** a) + amp * math.sin(w * x) for x in xs]
+    lo = min(ys)
+    if lo < 0:
+        ys = [y - lo for y in ys]
+    return 'wavy', [[x, y] for x, y in zip(xs, ys)]
